@@ -41,9 +41,11 @@ Fixpoint dprog (fuel : nat) (x : sx) : option prog :=
       end
   end.
 
-Definition dturn (x : sx) : option (nat * bool) :=
+Definition dturn (x : sx) : option (nat * bool * nat) :=
   match x with
-  | L [n; front] => match as_nat n, as_bool front with Some n, Some f => Some (n, f) | _, _ => None end
+  | L [n; front] => match as_nat n, as_bool front with Some n, Some f => Some (n, f, 0) | _, _ => None end
+  | L [n; front; act] =>
+      match as_nat n, as_bool front, as_nat act with Some n, Some f, Some a => Some (n, f, a) | _, _, _ => None end
   | _ => None
   end.
 
@@ -57,6 +59,7 @@ Definition enc_event (e : event) : sx :=
   | EvExt t n sh => L [A 4; of_nat t; of_nat n; of_bool sh]
   | EvCancel id t => L [A 5; of_nat id; of_nat t]
   | EvResched id t dl => L [A 6; of_nat id; of_nat t; of_opt of_nat dl]
+  | EvActor id t => L [A 7; of_nat id; of_nat t]
   end.
 
 (* outcome of the task: 0 returned, 1 cancelled, 2 TimeoutError, 3 other exception, 8 out of fuel, 9 loop blocked *)
@@ -67,7 +70,7 @@ Definition outcome (st : state) : nat :=
   | _ => 8
   end.
 
-Definition run_case (p : prog) (timers : list nat) (turns : list (nat * bool)) (k fuel : nat) : state :=
+Definition run_case (p : prog) (timers : list nat) (turns : list (nat * bool * nat)) (k fuel : nat) : state :=
   run_steps fuel (init exit_takes_back_leftover uncancel_message_fallback p timers turns k).
 
 Definition run (x : sx) : sx :=
